@@ -11,7 +11,8 @@
    help text); argparse's HelpFormatter layout (wrapping, columns, usage line) is not modelled.
 
    NOT written here (regenerated from the source into Gen/FactsHelp.v and Gen/FactsConflicts.v): the skip test of
-   DataclassWrapper.__init__, the help/token decision chain, the token, the test that lets an outside default win, what the formatter's base classes add, whether
+   DataclassWrapper.__init__, the help/token decision chain, the token, the arms of FieldWrapper.default and the test that lets an outside
+   default win, DataclassWrapper.title and .description, argparse's blank-help rule, the option strings BooleanOptionalAction registers, what the formatter's base classes add, whether
    print_help sets the parser up / applies the constructor's config files first, the exit status and stream of the
    help action, and whether option_strings de-duplicates through an order-preserving container. *)
 From SPV Require Export Base.Str Model.OptStr Model.BoolFlag.
@@ -54,8 +55,8 @@ Definition set_fw (f : hfield) (w : fw) : hfield :=
   {| hf_fw := w; hf_init := hf_init f; hf_cmd := hf_cmd f; hf_help := hf_help f; hf_default := hf_default f;
      hf_bool := hf_bool f |}.
 
-(* DataclassWrapper.title: qualname + " ['dest']" *)
-Definition title (w : hwrap) : string := hw_qual w ++ " ['" ++ join_dot (hw_path w) ++ "']".
+(* the decision chain of FieldWrapper.default, arm by arm (the final `else` gives None) *)
+Inductive darm := DExt | DSubgroup | DParent | DField | DFactory | DStoreTrue | DStoreFalse.
 
 (* str.replace(tok, "") *)
 Fixpoint remove_sub_fuel (n : nat) (tok s : string) : string :=
@@ -86,16 +87,41 @@ Section WithFacts.
   Variable ext_wins : bool -> bool.                            (* Gen: the test on self._default at the head of FieldWrapper.default,
                                                                   as a function of the (non-None) value's falsiness *)
   Variable neg_prefix : string.                                (* Gen (FactsBool): DEFAULT_NEGATIVE_PREFIX *)
+  Variable dchain : list darm.                                 (* Gen: the order of the arms of FieldWrapper.default *)
+  Variable blank_hides : bool.                                 (* Gen (argparse): `if action.help and action.help.strip()` *)
+  Variable bool_opts : list string -> list string -> list string. (* Gen: option_strings BooleanOptionalAction hands to argparse
+                                                                  (positive ones, negative ones) *)
+  Variable mk_title : string -> list string -> string.         (* Gen: DataclassWrapper.title (qualname, destinations) *)
+  Variable describe : bool -> string -> string -> string -> string -> string -> string -> bool -> bool -> string.
+                                                               (* Gen: DataclassWrapper.description (is a nested member;
+                                                                  docstring below / comment above / inline comment of that
+                                                                  member; class docstring; its description part; the shortened
+                                                                  one; fields have docstrings; docstring is huge) *)
   Variable preserved : bool.                                   (* Gen (FactsConflicts): order-preserving de-duplication *)
   Variable perm : list string -> list string.                  (* iteration order of a set under this run's hash seed *)
 
-  (* FieldWrapper.default: a default installed from outside (default instance, set_defaults, config file - layered by
-     C06) is used when it passes that test, else the definition's *)
-  Definition effective (D : dmap) (f : hfield) : option string :=
-    match dlookup (hdest f) D with
-    | Some v => if ext_wins (dv_falsy v) then Some (dv_text v) else hf_default f
-    | None => hf_default f
+  (* FieldWrapper.default: the first arm that yields a value.  An outside default (default instance, set_defaults,
+     config file - layered by C06; all of them reach the field through set_default) is used when it passes the test of
+     its arm; the definition's default comes from field.default / field.default_factory.  Not in the modelled domain:
+     subgroup fields, a parent default that was not also installed through set_default, store_true/store_false actions. *)
+  Fixpoint run_dchain (ch : list darm) (ext : option dval) (defn : option string) : option string :=
+    match ch with
+    | [] => None
+    | DExt :: r => match ext with
+                   | Some v => if ext_wins (dv_falsy v) then Some (dv_text v) else run_dchain r ext defn
+                   | None => run_dchain r ext defn
+                   end
+    | DField :: r | DFactory :: r => match defn with Some t => Some t | None => run_dchain r ext defn end
+    | _ :: r => run_dchain r ext defn
     end.
+  Definition effective (D : dmap) (f : hfield) : option string :=
+    run_dchain dchain (dlookup (hdest f) D) (hf_default f).
+
+  (* DataclassWrapper.title / .description.  The classes of the modelled domain have no inspectable source (no member
+     docstrings or comments, no field docstrings) and one-line docstrings (their description part is the docstring). *)
+  Definition title (w : hwrap) : string := mk_title (hw_qual w) [join_dot (hw_path w)].
+  Definition description (w : hwrap) : string :=
+    describe (Nat.ltb 1 (List.length (hw_path w))) "" "" "" (hw_doc w) (hw_doc w) "" false false.
 
   Definition exposedb (f : hfield) : bool :=
     negb (skip (hf_init f) (match hf_cmd f with Some b => b | None => cmd_default end)).
@@ -110,7 +136,7 @@ Section WithFacts.
   Definition negs_of (pos : list string) : list string :=
     match neg_strings neg_prefix pos [] with Some n => n | None => [] end.
   Definition shown_opts (c : cfg) (f : hfield) : list string :=
-    let pos := ordered_opts c (hf_fw f) in if hf_bool f then (pos ++ negs_of pos)%list else pos.
+    let pos := ordered_opts c (hf_fw f) in if hf_bool f then bool_opts pos (negs_of pos) else pos.
 
   (* argparse.HelpFormatter._format_action + _expand_help on the action built by add_arguments *)
   Definition entry_of (c : cfg) (D : dmap) (f : hfield) : entry :=
@@ -119,14 +145,14 @@ Section WithFacts.
     match arg_help (hf_help f) d with
     | None => mkentry (hdest f) opts None ""
     | Some h =>
-        if is_blank h then mkentry (hdest f) opts None ""       (* `if action.help and action.help.strip()` *)
+        if blank_hides && is_blank h then mkentry (hdest f) opts None ""
         else mkentry (hdest f) opts
                      (if adds_default then Some (match d with Some v => v | None => "None" end) else None)
                      (if strips_token then remove_sub token h else h)
     end.
 
   Definition group_of (c : cfg) (D : dmap) (w : hwrap) : group :=
-    mkgroup (title w) (hw_doc w) (map (entry_of c D) (filter exposedb (hw_fields w))).
+    mkgroup (title w) (description w) (map (entry_of c D) (filter exposedb (hw_fields w))).
 
   (* the groups added by _preprocessing, in the flattened wrapper order *)
   Definition help_entries (c : cfg) (D : dmap) (F : list hwrap) : list group := map (group_of c D) F.
